@@ -17,7 +17,7 @@ LEVEL_TEXT = ('every point of the product is executed on the real script and cla
               'trailing slashes, symlinked parents, mount points, every candidate trash dir failing)')
 LEVEL_NOTE = ('trusted: CPython/shutil, tmpfs, shim mount rules (EXDEV/EBUSY/ismount); names other than the alphabet and '
               'permission failures of non-root users are not covered')
-RULE = ('product of kind (6) x spelling (24) x option set (11) x layout (7: first use, existing pair whose payload is a dangling symlink, existing pair with the same name, orphan directory payload + orphan info with the same name, sticky .Trash, plain volume, every candidate blocked) minus duplicates (kind is irrelevant for '
+RULE = ('product of kind (6) x spelling (24) x option set (11) x layout (9: home trash whose info is a regular file / a dangling symlink, first use, existing pair whose payload is a dangling symlink, existing pair with the same name, orphan directory payload + orphan info with the same name, sticky .Trash, plain volume, every candidate blocked) minus duplicates (kind is irrelevant for '
         'spellings that do not name x); non-trivial = the run went past argument screening (a trash-dir candidate was '
         'examined or the entry moved), distinct = outcome class x spelling x option x layout')
 
@@ -25,7 +25,7 @@ SPELL_X = ['x', '/abs/x', './x', 'd/../x', 'x/', 'x//', './/x', 'sd/../x', 'sdv/
 SPELL_DOT = ['.', '..', './', '../', 'd/.', 'd/..', 'd/./', 'd/../', 'sd/..', '/mnt/v2', '/mnt/v2/', '', 'nonexistent',
              'd']
 OPTS = ['-', '-f', '-iy', '-in', '-ieof', '-v', '-vv', 'td-same', 'td-other', 'hf-flag', 'hf-both']
-LAYOUTS = ['home-cold', 'home-warm-samename', 'home-warm-orphans', 'home-warm-dangling', 'vol-sticky', 'vol-plain', 'vol-blocked']
+LAYOUTS = ['home-cold', 'home-warm-samename', 'home-warm-orphans', 'home-warm-dangling', 'home-info-is-file', 'home-info-dangling', 'vol-sticky', 'vol-plain', 'vol-blocked']
 
 
 def dimensions(tier):
@@ -38,7 +38,7 @@ def opts(tier):
 
 
 def layouts(tier):
-    return LAYOUTS if tier == 'thorough' else ['home-cold', 'home-warm-orphans', 'home-warm-dangling', 'vol-plain', 'vol-blocked']
+    return LAYOUTS if tier == 'thorough' else ['home-cold', 'home-warm-orphans', 'home-warm-dangling', 'home-info-is-file', 'vol-plain', 'vol-blocked']
 
 
 def cases(tier):
@@ -80,6 +80,14 @@ def make_world(kind, lay):
         W.dir(td, mode=0o700).dir(td + '/files', mode=0o700).dir(td + '/info', mode=0o700)
         W.file(td + '/files/x', 'older x\n')
         W.file(td + '/info/x.trashinfo', '[Trash Info]\nPath=/home/u/w/x\nDeletionDate=2020-01-01T00:00:00\n')
+    if lay in ('home-info-is-file', 'home-info-dangling'):
+        # a damaged home trash: info is not a directory -> the candidate must fail cleanly and the next one be tried
+        td = scen.HOME_TRASH
+        W.dir(td, mode=0o700).dir(td + '/files', mode=0o700)
+        if lay == 'home-info-is-file':
+            W.file(td + '/info', 'not a directory\n')
+        else:
+            W.link(td + '/info', 'nowhere')
     if lay == 'home-warm-dangling':
         # an earlier, complete pair named like the argument whose payload is a dangling symlink (exists() says "free")
         td = scen.HOME_TRASH
